@@ -75,7 +75,7 @@ def gen(rng, tier):
     # many distinct feature types make sqlite answer featuretype filters through its index; a minority of runs is
     # large enough (> 100 matching rows) for any internal batching of result rows to matter
     types = MANY_TYPES if rng.random() < 0.5 else TYPES
-    n0 = rng.randint(3, 9) if rng.random() > 0.06 else rng.choice([130, 260])
+    n0 = rng.randint(3, 9) if rng.random() > 0.06 else rng.choice([130, 260, 1150])
     steps = [{"op": "create", "feats": [feat(rng, ids[i] if i < len(ids) and rng.random() < 0.7 else None, types) for i in range(n0)],
               "form": rng.choice(["path", "list", "gen"])}]
     for _ in range(rng.choice([0, 1, 1, 2, 3])):
@@ -97,6 +97,13 @@ def gen(rng, tier):
     # always present: the plain full scan, and input order requested explicitly for a collection of types
     queries.append({"m": "all_features"})
     queries.append({"m": "all_features", "featuretype": rng.sample(types, min(len(types), rng.choice([2, 3, 5]))), "order_by": rng.choice(["file_order", ["file_order"]])})
+    if rng.random() < 0.3:
+        # a very long collection of feature types (most of them absent), the present ones spread over it
+        big = ["absent%d" % i for i in range(rng.choice([520, 1100]))]
+        for t in types:
+            big.insert(rng.randrange(len(big)), t)
+        queries.append({"m": rng.choice(["all_features", "features_of_type"]), "featuretype": big,
+                        "order_by": rng.choice([None, "start", ["seqid", "start"], "file_order", "length"]), "reverse": False})
     return {"steps": steps, "queries": queries, "qseed": rng.getrandbits(32), "memory": memory}
 
 
@@ -252,6 +259,21 @@ def run(case):
                         return False
                 if len(set(sched)) > 1 and any(len(a) > 1 for a in alone):
                     probes["generators_interleaved"] = 1
+            if len(feats) > 1000 and not case.get("memory"):
+                # a full iteration during which the caller deletes features that were already delivered: every feature that
+                # stays stored must still be delivered (whatever batching the iteration uses internally)
+                r = call(node, {"op": "iterate_with_delete", "h": "h", "at": 5, "n": 3})
+                if r["ok"]:
+                    gone = set(r["deleted"])
+                    want = [i for i in ids if i not in gone]
+                    got2 = [i for i in r["ids"] if i not in gone]
+                    model.delete(r["deleted"])
+                    probes["iteration_with_deletes_over_1000_rows"] = 1
+                    if got2 != want:
+                        V.append(viol("C11.filter", "%s: a full iteration with deletions of delivered features returned %d of %d remaining features" % (
+                            where, len(got2), len(want)), kind="iteration_with_deletes"))
+                        return False
+                    return True
             c = call(node, {"op": "read", "h": "h", "m": "count_features_of_type"})
             if not c["ok"] or c["out"] != len(feats):
                 V.append(viol("C11.count", "%s: count_features_of_type() = %r, iterated %d" % (where, c.get("out"), len(feats)), kind="count_all"))
@@ -294,6 +316,8 @@ def run(case):
                 call(node, {"op": "drop", "h": "h"})
                 call(node, {"op": "gc"})
                 call(node, {"op": "open", "h": "h", "db": "a.db"})
+                if not check_state("after reopen"):
+                    break
                 continue
             if k == "restart" and alive:
                 node.close()
